@@ -268,8 +268,12 @@ func Layout(r *rand.Rand, maxRep, maxLen int, monotoneValues bool) [][]Sample {
 	// so repair it except in a small malformed stream.
 	malformed := r.Intn(25) == 0
 	for i := range reps {
-		if !malformed {
-			reps[i] = Increasing(reps[i], monotoneValues)
+		reps[i] = Increasing(reps[i], monotoneValues)
+		if malformed && len(reps[i]) > 1 { // repeated or decreasing timestamps
+			for k := 0; k < 1+r.Intn(3); k++ {
+				j := 1 + r.Intn(len(reps[i])-1)
+				reps[i][j][0] = reps[i][j-1][0] - float64(r.Intn(2))*float64(r.Intn(int(interval)+1))
+			}
 		}
 	}
 	return reps
@@ -391,7 +395,11 @@ func IterFacts(repo string, w io.Writer) error {
 		}
 		switch sel.Sel.Name {
 		case "penA", "penB", "useA":
-			pens = append(pens, sel.Sel.Name+" = "+s.ExprString(as.Rhs[0]))
+			rhs := s.ExprString(as.Rhs[0])
+			if _, isBin := as.Rhs[0].(*ast.BinaryExpr); isBin && sel.Sel.Name != "useA" {
+				rhs = "<formula>" // translated separately into penA_formula / penB_formula
+			}
+			pens = append(pens, sel.Sel.Name+" = "+rhs)
 		}
 		return true
 	})
@@ -463,4 +471,98 @@ func rewriteSel(e ast.Expr, field string) ast.Expr {
 		return &ast.UnaryExpr{X: rewriteSel(x.X, field), Op: x.Op, OpPos: x.OpPos}
 	}
 	return e
+}
+
+// CounterFacts writes the facts about the counter adjustment of pkg/dedup/iter.go:
+// which query functions are counters, the guard and update of adjustAtValue and
+// the condition of the deferred adjust in Next.
+func CounterFacts(repo string, w io.Writer) error {
+	s, err := common.ParseSrc(repo, "pkg/dedup/iter.go")
+	if err != nil {
+		return err
+	}
+	fd, err := s.FindFunc("isCounter")
+	if err != nil {
+		return err
+	}
+	if len(fd.Body.List) != 1 {
+		return fmt.Errorf("srcfacts: isCounter is not a single return")
+	}
+	ret, ok := fd.Body.List[0].(*ast.ReturnStmt)
+	if !ok || len(ret.Results) != 1 {
+		return fmt.Errorf("srcfacts: isCounter is not a single return")
+	}
+	fmt.Fprintln(w, "(* isCounter *)")
+	fmt.Fprintf(w, "Definition isCounter_src : string := %s%%string.\n", common.CoqString(s.ExprString(ret.Results[0])))
+
+	adj, err := s.FindFunc("counterErrAdjustSeriesIterator.adjustAtValue")
+	if err != nil {
+		return err
+	}
+	var stmts []string
+	ast.Inspect(adj.Body, func(n ast.Node) bool {
+		switch x := n.(type) {
+		case *ast.IfStmt:
+			stmts = append(stmts, "if "+s.ExprString(x.Cond))
+		case *ast.AssignStmt:
+			var l, r []string
+			for _, e := range x.Lhs {
+				l = append(l, s.ExprString(e))
+			}
+			for _, e := range x.Rhs {
+				r = append(r, s.ExprString(e))
+			}
+			stmts = append(stmts, strings.Join(l, ", ")+" "+x.Tok.String()+" "+strings.Join(r, ", "))
+		}
+		return true
+	})
+	xs := make([]string, len(stmts))
+	for i, p := range stmts {
+		xs[i] = common.CoqString(p)
+	}
+	fmt.Fprintln(w, "(* counterErrAdjustSeriesIterator.adjustAtValue: if-conditions and assignments, source order *)")
+	fmt.Fprintf(w, "Definition adjust_src : list string := [%s]%%string.\n", strings.Join(xs, "; "))
+
+	at, err := s.FindFunc("counterErrAdjustSeriesIterator.At")
+	if err != nil {
+		return err
+	}
+	var rets []string
+	ast.Inspect(at.Body, func(n ast.Node) bool {
+		if x, ok := n.(*ast.ReturnStmt); ok {
+			var r []string
+			for _, e := range x.Results {
+				r = append(r, s.ExprString(e))
+			}
+			rets = append(rets, strings.Join(r, ", "))
+		}
+		return true
+	})
+	xs = make([]string, len(rets))
+	for i, p := range rets {
+		xs[i] = common.CoqString(p)
+	}
+	fmt.Fprintf(w, "Definition counter_at_returns : list string := [%s]%%string.\n", strings.Join(xs, "; "))
+
+	// the deferred adjust in dedupSeriesIterator.Next
+	next, err := s.FindFunc("dedupSeriesIterator.Next")
+	if err != nil {
+		return err
+	}
+	deferCond := ""
+	ast.Inspect(next.Body, func(n ast.Node) bool {
+		if d, ok := n.(*ast.DeferStmt); ok {
+			if fl, ok := d.Call.Fun.(*ast.FuncLit); ok && len(fl.Body.List) == 1 {
+				if is, ok := fl.Body.List[0].(*ast.IfStmt); ok {
+					deferCond = s.ExprString(is.Cond)
+				}
+			}
+		}
+		return true
+	})
+	if deferCond == "" {
+		return fmt.Errorf("srcfacts: deferred adjust in dedupSeriesIterator.Next not found")
+	}
+	fmt.Fprintf(w, "Definition next_defer_cond : string := %s%%string.\n", common.CoqString(deferCond))
+	return nil
 }
